@@ -781,6 +781,84 @@ def r27(ctx):
             ctx.bad(rid, s_, "a column of the fast-path result does not depend on the zero pattern of the weights: entries with zero weight can get a probability", construct=short(s_, 60))
 
 
+def r28(ctx):
+    """Index units inside inf_retis. After busy rows and columns are dropped, the number of [0-]
+    type ensembles in the *reduced* matrix is the local `offset = self._offset - <busy minus
+    ensembles>`; `self._offset` counts them in the full matrix. Every index or slice into a matrix
+    derived from the reduced one uses the reduced count, and the full count is used only on
+    full-size objects (the mask, the input matrix)."""
+    rid = "R-2.8"
+    tree = ctx.tree
+    f = tree.func(REPEX, "REPEX_state.inf_retis")
+    ps = [a.arg for a in f.args.args]
+    mat_p, locks_p = ps[1], ps[2]
+    fl = flow_of(f)
+    mask, _mn, _bt = _mask_name(f, fl, locks_p)
+    full = {mat_p, locks_p} | ({mask} if mask else set())
+    # the local reduced offset: a name defined from self._offset minus something
+    red_off = None
+    for n in walk_local(f):
+        if isinstance(n, ast.Assign) and len(n.targets) == 1 and isinstance(n.targets[0], ast.Name) and isinstance(n.value, ast.BinOp) and isinstance(n.value.op, ast.Sub) and ast.unparse(n.value.left) == "self._offset":
+            red_off = (n.targets[0].id, n)
+    if red_off is None:
+        raise AnalysisError("R-2.8: the reduced offset `self._offset - <busy minus ensembles>` was not found in inf_retis")
+    # names derived from the reduced matrix (closure over assignments); polarity aliases of the mask stay full-size
+    reduced = set()
+    changed = True
+    while changed:
+        changed = False
+        for n in walk_local(f):
+            if not (isinstance(n, ast.Assign) and len(n.targets) == 1 and isinstance(n.targets[0], ast.Name)):
+                continue
+            t = n.targets[0].id
+            if t in reduced or t in full or t == red_off[0]:
+                continue
+            names = {x.id for x in ast.walk(n.value) if isinstance(x, ast.Name)}
+            inv = [x for x in ast.walk(n.value) if isinstance(x, ast.UnaryOp) and isinstance(x.op, ast.Invert)]
+            from_mask_only = names and names <= full - {mat_p} and not any(isinstance(x, ast.Subscript) for x in ast.walk(n.value))
+            if from_mask_only:
+                full.add(t)  # e.g. free = ~bool_locks
+                changed = True
+                continue
+            sel = any(isinstance(x, ast.Subscript) and isinstance(x.value, ast.Name) and x.value.id == mat_p for x in ast.walk(n.value))
+            if sel or names & reduced:
+                if isinstance(n.value, (ast.Subscript, ast.Attribute, ast.Call, ast.Name, ast.BinOp)):
+                    reduced.add(t)
+                    changed = True
+    if not reduced:
+        raise AnalysisError("R-2.8: no matrix derived from the idle block found in inf_retis")
+    n_sites = 0
+
+    def base_name(e):
+        while isinstance(e, (ast.Subscript, ast.Attribute)):
+            e = e.value
+        return e.id if isinstance(e, ast.Name) else None
+
+    for sub in [x for x in walk_local(f) if isinstance(x, ast.Subscript)]:
+        b = base_name(sub.value) if not isinstance(sub.value, ast.Name) else sub.value.id
+        if b is None:
+            continue
+        idx_names = {ast.unparse(x) for x in ast.walk(sub.slice) if isinstance(x, (ast.Attribute, ast.Name))}
+        uses_full = "self._offset" in idx_names
+        uses_red = red_off[0] in idx_names
+        if not (uses_full or uses_red):
+            continue
+        n_sites += 1
+        if b in reduced and uses_full:
+            ctx.bad(rid, sub, f"`{short(sub, 60)}` indexes a matrix of the idle block with self._offset, the number of minus ensembles in the *full* matrix; with a busy [0-] the idle block has `{red_off[0]}` = self._offset - 1 of them: the minus / plus split is taken one column off, so paths are tested (and probabilities computed) in the wrong block", construct=f"reduced matrix indexed with self._offset: {short(sub, 50)}")
+        elif b in full and uses_red:
+            ctx.bad(rid, sub, f"`{short(sub, 60)}` indexes a full-size object with the reduced offset `{red_off[0]}`", construct=f"full-size object indexed with the reduced offset: {short(sub, 50)}")
+        else:
+            ctx.ok(rid, sub, f"`{short(sub, 50)}`: {'reduced' if b in reduced else 'full-size'} object indexed with the {'reduced' if uses_red else 'full'} minus count")
+    for c in [x for x in walk_local(f) if isinstance(x, ast.Call) and isinstance(x.func, ast.Attribute) and is_self_attr(x.func)]:
+        args = list(c.args) + [k.value for k in c.keywords]
+        if any(isinstance(a, ast.Name) and a.id in reduced for a in args) and any(ast.unparse(a) == "self._offset" for a in args):
+            n_sites += 1
+            ctx.bad(rid, c, f"`{short(c, 60)}` hands a matrix of the idle block to a helper together with self._offset (the full-matrix minus count) instead of the reduced `{red_off[0]}`", construct=f"helper called with self._offset: {short(c, 50)}")
+    if n_sites < 6:
+        raise AnalysisError(f"R-2.8: only {n_sites} offset-indexed sites found in inf_retis")
+
+
 def run(ctx):
     ctx.rule("R-2.1", "cache coherence of the memoised P matrix: typestate NONE/OK/STALE over every method of REPEX_state with callee summaries; no stale read, no stale exit of an externally called method; only the getter stores a matrix", floor=20)
     ctx.rule("R-2.2", "the getter computes P from the live weight matrix and busy flags and memoises that result", floor=2)
@@ -793,6 +871,8 @@ def run(ctx):
     ctx.attempt(r23, ctx)
     ctx.attempt(r24_25, ctx)
     ctx.attempt(r26, ctx)
+    ctx.rule("R-2.8", "index units in inf_retis: matrices of the idle block are indexed with the reduced minus count, full-size objects with self._offset", floor=6)
+    ctx.attempt(r28, ctx)
     ctx.rule("R-2.7", "quick_prob touches its argument only through shape and zero pattern (scale invariance of the fast path; zero where the weight is zero)", floor=2)
     ctx.attempt(r27, ctx)
 
@@ -829,5 +909,8 @@ VARIANTS = [
     B("c02-rescale-in-place", REPEX, "        scaled_arr = arr.copy()", "        scaled_arr = arr", "R-2.6"),
     B("c02-fast-path-uses-weights", REPEX, "        working_mat = np.where(arr != 0, 1, 0)  # convert non-zero numbers to 1", "        working_mat = np.where(arr != 0, arr, 0)", "R-2.7", control=True),
     B("c02-fast-path-column-without-pattern", REPEX, "            out_mat[:, -(i + 1)] = ens\n", "            out_mat[:, -(i + 1)] = total_traj_prob / max(total_traj_prob.sum(), 1)\n", "R-2.7"),
+    B("c02-plus-block-split-with-full-offset", REPEX, "                sorted_non_locked_T[:, offset:][\n                    np.where(\n                        sorted_non_locked_T[:, offset:]\n                        != sorted_non_locked_T[offset, offset:]", "                sorted_non_locked_T[:, self._offset :][\n                    np.where(\n                        sorted_non_locked_T[:, self._offset :]\n                        != sorted_non_locked_T[offset, self._offset :]", "R-2.8", control=True, why="seeded C02_c"),
+    B("c02-blocks-with-full-offset", REPEX, "            blocks = self.find_blocks(sorted_non_locked, offset=offset)", "            blocks = self.find_blocks(sorted_non_locked, offset=self._offset)", "R-2.8"),
+    B("c02-mask-sliced-with-reduced-offset", REPEX, "        offset = self._offset - sum(bool_locks[: self._offset])\n", "        offset = self._offset - sum(bool_locks[: self._offset])\n        n_busy_minus = sum(bool_locks[:offset])\n", "R-2.8"),
     K("c02-keep-tuple-index-store", REPEX, "                out[i][j] = f * scaled_arr[i][j]", "                out[i, j] = f * scaled_arr[i, j]"),
 ]
